@@ -180,6 +180,17 @@ def struct_eq(ctx, a, b):
     if isinstance(a, SStr) or isinstance(a, StringObj):
         return as_sstr(a).eq(as_sstr(b))
     ta = type(a)
+    if ta is Agg and a.ty == "serde_json::Value" and not (type(b) is Agg):
+        # PartialEq<str / String / integers / bool> for Value
+        if isinstance(b, (SStr, StringObj)):
+            return as_sstr(a).eq(as_sstr(b)) if a.variant == 3 else False
+        if isinstance(b, bool):
+            return ctx.values_eq(a.fields[0], b) if a.variant == 1 else False
+        if isinstance(b, int) or is_sym(b):
+            n = a.fields[0].fields[0] if a.variant == 2 else None
+            return ctx.values_eq(n, b) if (n is not None and not isinstance(n, Opaque)) else False
+    if type(b) is Agg and b.ty == "serde_json::Value" and not (ta is Agg):
+        return struct_eq(ctx, b, a)
     if ta is Agg:
         if type(b) is not Agg:
             raise Inconclusive("eq %r %r" % (a, b))
